@@ -50,6 +50,16 @@ Example wf_second_run_example :
   forallb (fun o1 => forallb (fun o2 => wf_auto o1 ex_view && wf_auto o2 (erase o1 ex_view)) all_opts) all_opts = true.
 Proof. vm_compute. reflexivity. Qed.
 
+(* a project with a self-referential "everything" extra, listed among its own requirers *)
+Definition self_view : view := [
+  mkPin "Frame" "2.4.0" None None [mkVia "Frame" ["all"] "" ["io"; "viz"]; mkVia "requirements.txt" [] ">=2" ["all"]];
+  mkPin "numpy" "1.0" None None [mkVia "Frame" ["io"] "" []]
+].
+Example self_edge_example :
+  forallb (fun o => wf_auto o self_view) all_opts = true /\
+  In ("frame", "Frame", ["io"; "viz"], "", ["all"]) (edges self_view).
+Proof. split; [vm_compute; reflexivity|left; reflexivity]. Qed.
+
 (* the round trip itself, computed *)
 Example roundtrip_example :
   load (write (ex_opts true true true true) ex_view) = Ok ex_view.
